@@ -426,9 +426,9 @@ class CFG:
         d = self.dominators()
         return b in d and a in d[b]
 
-    def must_pass(self, a, b, via, skip_labels=()):
+    def must_pass(self, a, b, via, skip_labels=(), skip_edges=()):
         """every path from a to b passes through a node of `via` (vacuously true if b unreachable from a)"""
-        return b not in self.reachable_from(a, avoid=via, skip_labels=skip_labels)
+        return b not in self.reachable_from(a, avoid=via, skip_labels=skip_labels, skip_edges=skip_edges)
 
     def edge_dominates(self, test, label, target):
         """target is reachable from entry only through the `label` out-edge of `test`:
@@ -446,6 +446,33 @@ class CFG:
                     if self.edge_dominates(n, lab, target):
                         out.append((n, lab))
         return out
+
+    def correlated_skip_edges(self, target):
+        """edges infeasible on any path to `target` because they contradict one of its guards:
+        when the out-edge `lab` of test t2 dominates target, another test t1 with the same
+        (normalised) condition whose names are never assigned in the function must take `lab` too"""
+        assigned = set()
+        for n in self.nodes:
+            st = n.ast
+            if st is None:
+                continue
+            for x in ast.walk(st):
+                if isinstance(x, ast.Name) and isinstance(x.ctx, (ast.Store, ast.Del)):
+                    assigned.add(x.id)
+        skip = set()
+        for (t2, lab2) in self.guards_of(target):
+            if t2.kind != "test":
+                continue
+            txt = ast.unparse(t2.ast)
+            names = {x.id for x in ast.walk(t2.ast) if isinstance(x, ast.Name)}
+            if names & assigned:
+                continue
+            for t1 in self.nodes:
+                if t1 is not t2 and t1.kind == "test" and ast.unparse(t1.ast) == txt:
+                    for (m, lab) in t1.succ:
+                        if lab in ("true", "false") and lab != lab2:
+                            skip.add((t1, m, lab))
+        return skip
 
     def paths(self, start, goal, max_paths=2000, loop_bound=2):
         """enumerate paths start->goal with every node visited at most loop_bound times (thorough tier)"""
